@@ -4,17 +4,17 @@
 
 package message
 
-//@ func (*MessageRaw).GetID
+//@ func (*MessageRaw).GetID params (m) returns (res)
 //@   requires m != nil
 //@   ensures  res == m.ID
 //@   modifies nothing
 
-//@ func (*ReadWriter).CRCExtra
+//@ func (*ReadWriter).CRCExtra params (rw) returns (res)
 //@   requires rw != nil
 //@   ensures  res == rw.crcExtra
 //@   modifies nothing
 
-//@ func (*ReadWriter).Read returns (msg, err)
+//@ func (*ReadWriter).Read params (rw, m, isV2) returns (msg, err)
 //@   requires rw != nil && m != nil
 //@   requires specCodecInv(rw)
 //@   ensures  [v1-exact-length] !isV2 && len(m.Payload) != int(rw.sizeNormal) ==> err != nil && msg == nil
@@ -28,7 +28,7 @@ package message
 //@   loop 1 invariant true
 //@   assumes  decoding is a function of (codec, payload bytes, version): the clause `(err == nil) == ufDecodable(...)` DEFINES ufDecodable for callers and is not an obligation here
 
-//@ func (*ReadWriter).Write
+//@ func (*ReadWriter).Write params (rw, msg, isV2) returns (res)
 //@   requires rw != nil && msg != nil && specCodecInv(rw)
 //@   ensures  [raw-result] res != nil && freshPtr(res) && res.ID == msg.GetID()
 //@   ensures  [payload-size] len(res.Payload) <= 255 && freshBytes(res.Payload)
@@ -43,7 +43,7 @@ package message
 //@   loop 1 modifies-fresh
 //@   assumes  msg has the dynamic type the codec was initialised with (otherwise reflect panics; the public API does not check it)
 
-//@ func writeValue
+//@ func writeValue params (buf, target, f) returns (res)
 //@   let I = target.Addr().Interface()
 //@   let ENUM = (f.isEnum && specEnumWidth(f.ftype) != 0)
 //@   requires f != nil && len(buf) >= specElemWidth(target, f)
@@ -58,7 +58,7 @@ package message
 //@   canary   res == 0
 //@   modifies buf[:]
 
-//@ func readValue
+//@ func readValue params (target, buf, f) returns (res)
 //@   let I = target.Addr().Interface()
 //@   let ENUM = (f.isEnum && specEnumWidth(f.ftype) != 0)
 //@   requires f != nil && len(buf) >= specElemWidth(target, f)
@@ -74,7 +74,7 @@ package message
 //@   loop 0 invariant forall k int :: 0 <= k && k < end ==> buf[k] != 0
 //@   loop 0 decreases int(f.arrayLength) - end
 
-//@ func removeEmptyBytes
+//@ func removeEmptyBytes params (buf) returns (res)
 //@   ensures  sameArray(res, buf) && len(res) <= len(buf)
 //@   ensures  len(buf) >= 1 ==> len(res) >= 1
 //@   ensures  len(buf) == 0 ==> len(res) == 0
@@ -87,7 +87,7 @@ package message
 //@   loop 0 invariant forall k int :: end <= k && k < len(buf) ==> buf[k] == 0
 //@   loop 0 decreases end
 
-//@ func (*ReadWriter).size
+//@ func (*ReadWriter).size params (rw, isV2) returns (res)
 //@   requires rw != nil
 //@   ensures  isV2 ==> res == rw.sizeExtended
 //@   ensures  !isV2 ==> res == rw.sizeNormal
@@ -98,7 +98,7 @@ package message
 // code and specification).  specPayloadBytes sums, over the struct's fields, the wire bytes the MAVLink rules give
 // each field from its Go type and tags alone.
 
-//@ func (*ReadWriter).Initialize
+//@ func (*ReadWriter).Initialize params (rw) returns (err)
 //@   ghostlog message.msgGoToDef, message.fieldGoToDef, (*message.ReadWriter).Initialize$3
 //@   option merge-scalar-branches
 //@   let TT = reflect.TypeOf(rw.Message).Elem()
@@ -125,7 +125,7 @@ package message
 
 // The comparator handed to sort.Slice (the second function literal of Initialize) IS the MAVLink ordering rule, for
 // every pair of descriptors of a struct whose extension fields are declared after its base fields.
-//@ func (*ReadWriter).Initialize$2 captures (rw *ReadWriter) returns (r)
+//@ func (*ReadWriter).Initialize$2 params (i, j) captures (rw *ReadWriter) returns (r)
 //@   requires rw != nil && 0 <= i && i < len(rw.fields) && 0 <= j && j < len(rw.fields) && rw.fields[i] != nil && rw.fields[j] != nil
 //@   requires specExtensionsDeclaredLast(rw.fields[i], rw.fields[j]) && specExtensionsDeclaredLast(rw.fields[j], rw.fields[i])
 //@   requires specPrimitiveSize(rw.fields[i].ftype) > 0 && specPrimitiveSize(rw.fields[j].ftype) > 0
@@ -166,7 +166,7 @@ package message
 //@              (F.ftype == typeChar ==> logBytesAre(0, "char "))
 //@   loop 0 body-ensures [same-hash-object] logLen() >= 1 ==> logArg(0, 0) == logArg(logLen()-1, 0)
 
-//@ func NewReadWriter returns (rw, err)
+//@ func NewReadWriter params (msg) returns (rw, err)
 //@   ghostlog (*message.ReadWriter).Initialize
 //@   ensures  rw != nil && rw.Message == msg && logLen() == 1 && logCallee(0, "(*message.ReadWriter).Initialize") && logArgIsPtr(0, 0, rw) && err == logRetErr(0)
 //@   modifies ghost:log
